@@ -122,12 +122,20 @@ class Rig:
         return self.seen[-1]
 
 
-def _expect_ip(real, xff, trusted):
-    """-> set of acceptable remote_ip values per the statement (real / xff are None when absent)"""
+def _entries(pieces):
+    """X-Forwarded-For entries (OWS-trimmed) from the list of joined pieces (a piece may itself contain commas)"""
+    out = []
+    for p in pieces:
+        for e in p.split(","):
+            out.append(_ows(e))
+    return out
+
+
+def _expect_ip(real, entries, trusted):
+    """-> list of acceptable remote_ip values per the statement (real / entries are None when the header is absent)"""
     xcand = None
-    if xff is not None:
-        for e in reversed(xff.split(",")):
-            e = _ows(e)
+    if entries is not None:
+        for e in reversed(entries):
             if e not in trusted:
                 xcand = e
                 break
@@ -185,7 +193,7 @@ def pre_ip(rsel: int, xn: int, sels: List[int], g: str, tmask: int, mode: int) -
             return False
         if s == FREE:
             free = True
-    if not (len(g) <= (P.G if free else 0) and _ok_chars(g)):
+    if not (len(g) <= ((P.G if xn <= 1 else P.G2) if free else 0) and _ok_chars(g)):
         return False
     if classify_ip(rsel=rsel, xn=xn, sels=sels, g=g, tmask=tmask) in P.exclude:
         return False
@@ -194,8 +202,8 @@ def pre_ip(rsel: int, xn: int, sels: List[int], g: str, tmask: int, mode: int) -
 
 @harness(
     pre=pre_ip,
-    quick=dict(NX=2, G=2, NSEL=3, NT=2, NM=3, timeout=150, reach_timeout=150),
-    thorough=dict(NX=3, G=3, NSEL=5, NT=4, NM=4, timeout=900, reach_timeout=300),
+    quick=dict(NX=2, G=2, G2=1, NSEL=3, NT=2, NM=3, timeout=150, reach_timeout=150),
+    thorough=dict(NX=3, G=3, G2=2, NSEL=5, NT=4, NM=4, timeout=900, reach_timeout=300),
     nshards=dict(quick=18, thorough=24),
     reach=["real_ip_wins", "xff_rightmost_untrusted", "trusted_skipped", "garbage_falls_back", "all_trusted",
            "clean_after_close", "short_numeric_garbage", "real_garbage_xff_valid"],
@@ -214,7 +222,7 @@ def pre_ip(rsel: int, xn: int, sels: List[int], g: str, tmask: int, mode: int) -
            "header characters: printable ASCII, SP, HTAB, no '%' (zone ids are environment dependent)",
            "constant clock for HTTPServerRequest._start_time"],
     outside=["the libc part of is_valid_ip; non-ASCII header text (observation: the real is_valid_ip accepts e.g. '\\xb2' "
-             "because getaddrinfo IDNA/NFKC-normalises it to '2')", "AF_UNIX sockets", "more than NX X-Forwarded-For items"],
+             "because getaddrinfo IDNA/NFKC-normalises it to '2')", "AF_UNIX sockets", "more than NX X-Forwarded-For items", "free text longer than G (<= 1 item) / G2 (more items) code points"],
 )
 def h_ip(rsel: int, xn: int, sels: List[int], g: str, tmask: int, mode: int):
     rsel, xn, tmask, mode = IDX[rsel], IDX[xn], IDX[tmask], IDX[mode]
@@ -228,31 +236,33 @@ def h_ip(rsel: int, xn: int, sels: List[int], g: str, tmask: int, mode: int):
     real = None if rsel == 5 else _item(rsel, g)
     if real is not None:
         hdrs.append(("X-Real-Ip", real))
-    xff = None
+    xff = entries = None
     if xn > 0:
-        xff = _item(sels[0], g)
+        pieces = [_item(sels[k], g) for k in range(xn)]
+        xff = pieces[0]
         for k in range(1, xn):
-            xff = xff + (", " if k == 1 else " ,") + _item(sels[k], g)
+            xff = xff + (", " if k == 1 else " ,") + pieces[k]
         xff = _ows(xff)       # the header parser strips optional whitespace around the value
         hdrs.append(("X-Forwarded-For", xff))
+        entries = _entries(pieces)
     if sch is not None:
         hdrs.append(sch)
     ip, pr = rig.request(hdrs, close=close)
     # ---- oracle
-    acc = _expect_ip(real, xff, trusted)
+    acc = _expect_ip(real, entries, trusted)
     if real is not None and acc == [real] and xff is not None:
         reached("real_ip_wins")
     if real is not None and len(acc) == 2:
         reached("real_garbage_xff_valid")
     if real is None and xff is not None and acc != [SOCK_IP]:
         reached("xff_rightmost_untrusted")
-        if _ows(xff.split(",")[-1]) in trusted:
+        if entries[-1] in trusted:
             reached("trusted_skipped")
         if len(acc[0]) <= 2:
             reached("short_numeric_garbage")
     if (real is not None or xff is not None) and acc == [SOCK_IP]:
         reached("garbage_falls_back")
-    if real is None and xff is not None and all([_ows(e) in trusted for e in xff.split(",")]):
+    if real is None and xff is not None and all([e in trusted for e in entries]):
         reached("all_trusted")
     assert ip in acc, "remote_ip %r, the statement allows %r (X-Real-Ip=%r X-Forwarded-For=%r trusted=%r)" % (
         ip, acc, real, xff, trusted)
@@ -265,3 +275,133 @@ def h_ip(rsel: int, xn: int, sels: List[int], g: str, tmask: int, mode: int):
     assert (ip2, pr2) == (SOCK_IP, rig.sock_proto), \
         "values of the previous request leaked into the next one: %r" % ((ip2, pr2),)
     assert (rig.ctx.remote_ip, rig.ctx.protocol) == (SOCK_IP, rig.sock_proto), "context not restored"
+
+
+# ------------------------------------------------------------------------------------------------
+# protocol rewriting with symbolic scheme header text
+
+
+def pre_proto(ssel: int, sg: str, psel: int, pg: str, https: bool, withip: bool) -> bool:
+    nsc = len(SCHEMES)
+    if not (0 <= ssel <= nsc + 1 and 0 <= psel <= nsc + 1 and in_shard(ssel)):
+        return False
+    if not (len(sg) <= (P.G if ssel == nsc + 1 else 0) and len(pg) <= (P.G if psel == nsc + 1 else 0)):
+        return False
+    return _ok_chars(sg) and _ok_chars(pg)
+
+
+@harness(
+    pre=pre_proto,
+    quick=dict(G=2, timeout=150),
+    thorough=dict(G=4, timeout=900),
+    nshards=len(SCHEMES) + 2,
+    reach=["proto_rewritten", "proto_garbage_kept", "x_scheme_over_forwarded_proto", "free_text_is_scheme"],
+    units=["httpserver._HTTPRequestContext._apply_xheaders/_unapply_xheaders", "httpserver._ProxyAdapter",
+           "httpserver._CallableAdapter", "httputil.HTTPServerRequest.__init__"],
+    stubs=["X-Scheme / X-Forwarded-Proto: absent, one of %r, or free text <= G cp (printable ASCII, SP, HTAB)" % (SCHEMES,),
+           "netutil.is_valid_ip stub as in h_ip; fake stream/connection as in h_ip"],
+    outside=["non-ASCII scheme text"],
+)
+def h_proto(ssel: int, sg: str, psel: int, pg: str, https: bool, withip: bool):
+    nsc = len(SCHEMES)
+    ssel, psel = IDX[ssel], IDX[psel]
+    rig = Rig([], https)
+    scheme = None if ssel == nsc else (sg if ssel == nsc + 1 else SCHEMES[ssel])
+    proto = None if psel == nsc else (pg if psel == nsc + 1 else SCHEMES[psel])
+    hdrs = [("X-Real-Ip", V6)] if withip else []
+    if scheme is not None:
+        hdrs.append(("X-Scheme", scheme))
+    if proto is not None:
+        hdrs.append(("X-Forwarded-Proto", proto))
+    ip, pr = rig.request(hdrs)
+    assert ip == (V6 if withip else SOCK_IP), "remote_ip %r" % (ip,)
+    assert pr in ("http", "https"), "protocol %r is neither http nor https" % (pr,)
+    if scheme is None and proto is None:
+        assert pr == rig.sock_proto, "no scheme header: protocol must be the connection's own"
+    else:
+        eff = scheme if scheme is not None else proto
+        last = _ows(eff.split(",")[-1])
+        if last in ("http", "https"):
+            # documented: the proxy's (last) scheme entry is honoured, X-Scheme first
+            assert pr == last, "scheme header %r not honoured (protocol %r)" % (eff, pr)
+            if pr != rig.sock_proto:
+                reached("proto_rewritten")
+                if scheme is not None and proto is not None and _ows(proto.split(",")[-1]) != last:
+                    reached("x_scheme_over_forwarded_proto")
+                if ssel == nsc + 1:
+                    reached("free_text_is_scheme")
+        else:
+            reached("proto_garbage_kept")
+            assert pr == rig.sock_proto, "unusable scheme header %r changed the protocol to %r" % (eff, pr)
+    ip2, pr2 = rig.request([])
+    assert (ip2, pr2) == (SOCK_IP, rig.sock_proto), "leak into the next request: %r" % ((ip2, pr2),)
+
+
+# ------------------------------------------------------------------------------------------------
+# keep-alive histories: <= N requests on ONE context, each with one of the pooled header sets
+
+HSETS = [
+    [],
+    [("X-Real-Ip", V4)],
+    [("X-Forwarded-For", "%s, %s" % (V6, TRUSTED_POOL[0]))],
+    [("X-Scheme", "https")],
+    [("X-Forwarded-Proto", "http"), ("X-Real-Ip", "bogus")],
+    None,     # X-Real-Ip: free text g, X-Forwarded-Proto: free text g
+]
+# expected (remote_ip or None = socket, protocol or None = socket) for the concrete sets
+HEXP = [(None, None), (V4, None), (V6, None), (None, "https"), (None, "http")]
+
+
+def pre_hist(n: int, r0: int, r1: int, r2: int, r3: int, g: str, https: bool, close_last: bool) -> bool:
+    nh = len(HSETS)
+    if not (1 <= n <= P.N and 0 <= r0 < nh and in_shard(r0 + nh * (n - 1))):
+        return False
+    # unused slots are pinned to 0 (plain ints instead of List[int]: CrossHair's list model raised an
+    # internal error on indexed access in the precondition)
+    if not (0 <= r1 < (nh if n > 1 else 1) and 0 <= r2 < (nh if n > 2 else 1) and 0 <= r3 < (nh if n > 3 else 1)):
+        return False
+    uses_g = r0 == 5 or r1 == 5 or r2 == 5 or r3 == 5
+    return len(g) <= (P.G if uses_g else 0) and _ok_chars(g)
+
+
+@harness(
+    pre=pre_hist,
+    quick=dict(N=3, G=2, timeout=100),
+    thorough=dict(N=4, G=3, timeout=900),
+    nshards=dict(quick=18, thorough=24),
+    reach=["plain_after_rewrite", "rewrite_after_rewrite", "closed_then_next", "free_text_numeric"],
+    units=["httpserver.HTTPServer.start_request", "httpserver._ProxyAdapter (all methods)", "httpserver._CallableAdapter",
+           "httpserver._HTTPRequestContext._apply_xheaders/_unapply_xheaders"],
+    stubs=["each request carries one of 6 pooled header sets (none / X-Real-Ip v4 / X-Forwarded-For 'v6, trusted' / X-Scheme / "
+           "X-Forwarded-Proto + bogus X-Real-Ip / X-Real-Ip and X-Forwarded-Proto = free text g <= G cp); trusted_downstream = [5.5.5.5]",
+           "netutil.is_valid_ip stub, fake stream/connection as in h_ip"],
+    outside=["histories longer than N requests", "pipelined (overlapping) requests: HTTP/1 serves one request at a time per connection"],
+)
+def h_history(n: int, r0: int, r1: int, r2: int, r3: int, g: str, https: bool, close_last: bool):
+    rig = Rig([TRUSTED_POOL[0]], https)
+    prev_rewrote = False
+    n = IDX[n]
+    reqs = [r0, r1, r2, r3][:n]
+    for i in range(n):
+        r = IDX[reqs[i]]
+        if r == 5:
+            hdrs = [("X-Real-Ip", g), ("X-Forwarded-Proto", g)]
+            eip = g if ref_is_numeric_ip(g) else None
+            epr = g if g in ("http", "https") else None
+            if eip is not None:
+                reached("free_text_numeric")
+        else:
+            hdrs = HSETS[r]
+            eip, epr = HEXP[r]
+        last = i == n - 1
+        ip, pr = rig.request(hdrs, close=(last and close_last))
+        want = (eip if eip is not None else SOCK_IP, epr if epr is not None else rig.sock_proto)
+        if prev_rewrote and r == 0:
+            reached("plain_after_rewrite")
+        if prev_rewrote and r != 0:
+            reached("rewrite_after_rewrite")
+        assert (ip, pr) == want, "request %d of %r saw %r, its own headers give %r" % (i, reqs, (ip, pr), want)
+        prev_rewrote = want != (SOCK_IP, rig.sock_proto)
+    if close_last:
+        reached("closed_then_next")
+    assert rig.request([]) == (SOCK_IP, rig.sock_proto), "leak after the history"
